@@ -137,9 +137,9 @@ def generate(rng, tier, run):
             ops.append(['derive', i, {f: vals[1 % len(vals)]}])
             g = rng.choice([k for k in sorted(DOM) if k != f])
             ops.append(['derive', n0, {g: rng.choice(DOM[g])}])
-        elif x < 0.12:
+        elif x < 0.18:
             ops.append(['probe', i, ''.join(rng.choice(ALPHABET) for _ in range(rng.randint(1, 8)))])
-        elif batch == 'rejected' and x < 0.27:
+        elif batch == 'rejected' and x < 0.32:
             kind = rng.choice(['unknown_field', 'empty_group_delimiters', 'bad_group_delimiters'])
             ops.append(['derive_bad', i, kind])
         else:
